@@ -28,7 +28,7 @@ var analysisCmd = &cobra.Command{
 		var outputName string
 		var ds []core_domain.CodeDataStruct
 
-		ds = analysis.CommonAnalysis(output, analysisCmdConfig.Path, new(pyapp.PythonIdentApp), cocafile.GoFileFilter, true)
+		ds = analysis.CommonAnalysis(output, analysisCmdConfig.Path, new(pyapp.PythonIdentApp), cocafile.PythonFileFilter, true)
 		outputName = "pydeps.json"
 
 		cModel, _ := json.MarshalIndent(ds, "", "\t")
